@@ -69,6 +69,40 @@ CHECKS = {
          'Trusted: TLC, Domains.tla, Graphs.tla binding clause, the value encoding of the driver. Domain values are hashable python values of 3 kinds; sizes 0..3.', 'DESIGN.md#c20'),
 }
 
+# session 4: what was added to each check (appended to technique / level text)
+ADDENDA = {
+ 'C02': ('; Log-semiring runs of globally linear grammars whose constant rules carry a factor exp(-280) (all values shifted by exactly -280: the same iteration at another magnitude); non-linear rules with a factor no other rule mentions, written after the recursive edges',
+         ' Log runs at magnitude -280 (homogeneity of linear systems), judged after shifting back.'),
+ 'C03': ('; signed cotangents (losses such as -Z, -log Z): enclosures of recursive gradients turn around for negative entries; rules with two edges on the same two nodes in opposite orders',
+         ' Cotangent entries in {-2,-1,0,1,2}.'),
+ 'C06': ('; part axis_algebra: TLC enumerates EVERY pair of typed axis lists for a catalogue of index-type shapes (MC_AxisAlg; R3: typed lists are injective patterns, solutions of es = fs are the common support) -> Axis.unify / antiunify / stride / index / numel / fv / freshen / alpha on the real Axis objects -> TLC judge (Trace_AxisAlg, AxisAlg.tla): the unifier parametrises exactly the solution set of the equations, once each, and fails only when there is none; the generalisation instantiates to both operands; stride is the affine form of the index map; index inverts it',
+         ' Axis algebra: all 1930 (quick: a seeded 700 of them) / all pairs of a larger catalogue (thorough) of axis-list pairs with shared or disjoint physical axes, plus seeded deeper nestings.'),
+ 'C08': ('; histories on ONE semiring object: accumulators that are the very tensors from_int handed out, updated in place by add_, then the constants and identities again',
+         ''),
+ 'C09': ('; a and b drawing their PhysicalAxis objects from one typed pool (b names axes of a), the swap matrix a[(p,q),(q,p)] against one-hot right-hand sides; Log-semiring cycles of weight 1 - 2^-k for k up to the smallest subnormal (self-loop and 2-cycle; Semiring.solve, PatternedTensor.solve, multi_solve): least solution k ln 2 (LinSolve!LsNearOneOK)',
+         ' 54 (quick) / ~650 (thorough) systems next to the radius of convergence in float32 and float64.'),
+ 'C11': ('; gradients (Real and Log) of recursive grid grammars with an unproductive nonterminal per interpreter level; Log runs at magnitude -280 for every method',
+         ''),
+ 'C12': ('; RECURSIVE grid grammars (least fixed point proved by TLC) under re-ordered rules, re-ordered edges inside rules, renumbered nodes and re-ordered label registration, judged by Trace_Recursive against the one certificate',
+         ' 64 (quick) / 900 (thorough) presentations of certified recursive grammars.'),
+ 'C13': ('; NaN defaults (as .grad uses) against re-patterned and densified copies that store the NaNs, with equal_nan, in both directions',
+         ''),
+ 'C14': ('; weights held as permuted views (vaxes a non-identity permutation of paxes, non-square shapes)',
+         ''),
+ 'C15': ('; the same tree with identical subderivations built ONCE and used at several positions (shared FGGDerivation objects)',
+         ''),
+ 'C16': ('; the observed .type of every graph and of every rule right-hand side after every call; FactorGraph handles with set_ext and FactorGraph.from_graph in the heap machine',
+         ''),
+ 'C17': ('; mode nt_named_like_term: a nonterminal of one grammar named like a terminal of the other',
+         ' 9 modes.'),
+ 'C18': ('; the snapshot also holds process-wide state (autograd mode, default dtype, the constants fresh semiring objects hand out); a query that fails (start assignment outside the domain / no iteration budget) is part of the alphabet; a world whose nullary nonterminal is a structural zero in the first iteration; the reference run of every query on fresh objects is itself a judged history',
+         ' Alphabet of 16 queries: 256 (quick) / 4096 (thorough) histories.'),
+ 'C19': ('; vertex objects of several kinds (ints from 0, strings with the empty string, tuples with the empty tuple, floats): falsy vertices included; grammars in which two rules with different left-hand sides share ONE right-hand-side Graph object',
+         ''),
+ 'C20': ('; apply / replace or update the weights in place / apply again; factor pairs whose weights differ by 2^-20 in one entry (float32 and float64)',
+         ''),
+}
+
 PENDING = {}   # pid -> reason (filled below for every property without a check)
 
 ALL = [f'C{i:02d}' for i in range(1, 21)]
@@ -77,6 +111,7 @@ ALL = [f'C{i:02d}' for i in range(1, 21)]
 def build():
     checks = []
     for pid, (engine, tech, text, note, ref) in sorted(CHECKS.items()):
+        tech, text = tech + ADDENDA.get(pid, ('', ''))[0], text + ADDENDA.get(pid, ('', ''))[1]
         checks.append({
             'property_id': pid,
             'quick_cmd': f'./check {pid} --tier quick',
